@@ -1,2 +1,13 @@
-/- TEMPORARY (c08 agent's private testing of its C09 share): the merged C09 imports both shares. -/
+/-
+C09 — Blocked queue calls wake when they can proceed; cancellation is prompt and clean.
+
+The property theorems are in two files that share nothing but the statement they formalise:
+* `Ekit/Props/C09a.lean` — ConcurrentArrayBlockingQueue and ConcurrentLinkedBlockingQueue (+ the `cond` helper),
+  over the same transition systems as C07;
+* `Ekit/Props/C09b.lean` — DelayQueue, over the same timed transition system as C08.
+Residue (named `…_partial` in both files): wall-clock "as soon as"/"promptly" and scheduler fairness are not
+expressible; what is proved is enabledness (no lost wake-up, no stuck state, the ctx arm enabled at every blocking
+point) plus progress variants where they exist.
+-/
+import Ekit.Props.C09a
 import Ekit.Props.C09b
